@@ -233,7 +233,7 @@ def explore(make_bodies, is_point, bound, check, first_level=None, max_execution
 
     make_bodies() -> (bodies, context) builds a FRESH shared object and the thread bodies for one execution.
     check(execution, context) -> list of problems (strings) for this execution.
-    first_level: optional predicate(index) selecting which first-level deviations this shard explores.
+    first_level: optional predicate(prefix, index) selecting which deviations this shard explores (sharding).
     Returns dict(executions, points_max, problems=[(prefix, problem)], capped).
     """
     stats = {'executions': 0, 'points_total': 0, 'points_max': 0, 'problems': [], 'capped': False,
@@ -270,7 +270,7 @@ def explore(make_bodies, is_point, bound, check, first_level=None, max_execution
             if i >= len(prefix):
                 cost = pre + (1 if running_enabled else 0)
                 if cost <= bound:
-                    if not (len(prefix) == 0 and first_level is not None and not first_level(i)):
+                    if first_level is None or first_level(prefix, i):
                         for alt in range(1, nen):
                             stack.append(tuple(x.choices[:i]) + (alt,))
             if running_enabled and x.choices[i] != 0:
